@@ -60,14 +60,18 @@ func runFaultEnum(c *Ctx, stores []string) {
 	}
 	n := 0
 	type placement struct {
-		f  map[int]faultKind
-		jf bool
+		f   map[int]faultKind
+		jf  bool
+		cmd string // Redis: a command of this name fails inside the real store (the server is not reached)
 	}
 	var places []placement
-	places = append(places, placement{nil, false}, placement{nil, true})
+	places = append(places, placement{nil, false, ""}, placement{nil, true, ""})
+	for _, cmd := range []string{"del", "hset", "hsetnx", "hdel", "hmget", "hget", "expireat", "exists"} {
+		places = append(places, placement{nil, false, cmd})
+	}
 	for i := 0; i < 6; i++ {
 		for _, k := range []faultKind{failBefore, failAfter} {
-			places = append(places, placement{map[int]faultKind{i: k}, false})
+			places = append(places, placement{map[int]faultKind{i: k}, false, ""})
 		}
 	}
 	if c.Thorough() {
@@ -75,7 +79,7 @@ func runFaultEnum(c *Ctx, stores []string) {
 			for j := i + 1; j < 6; j++ {
 				for _, k1 := range []faultKind{failBefore, failAfter} {
 					for _, k2 := range []faultKind{failBefore, failAfter} {
-						places = append(places, placement{map[int]faultKind{i: k1, j: k2}, false})
+						places = append(places, placement{map[int]faultKind{i: k1, j: k2}, false, ""})
 					}
 				}
 			}
@@ -88,6 +92,9 @@ func runFaultEnum(c *Ctx, stores []string) {
 					if !c.Thorough() && (pi+sti)%2 == 1 && len(pl.f) > 0 { // quick: alternate stores over the placements
 						continue
 					}
+					if pl.cmd != "" && store != "redis" {
+						continue
+					}
 					n++
 					o := cfgVariants[(si+bi)%2]
 					o.Store = store
@@ -95,17 +102,23 @@ func runFaultEnum(c *Ctx, stores []string) {
 					s := newSim(w, newRand(c.Seed, int64(7000+n)))
 					path := sc.Prepare(s)
 					s.beh = beh
+					before := s.Jar
+					if pl.cmd != "" {
+						w.NextCmdFaults = []string{pl.cmd}
+					}
 					s.request(reqSpec{Scheme: "https", Host: s.AppHost, Path: path, Cookie: s.cookie(s.Jar)}, pl.f, pl.jf)
 					s.beh = compliant()
 					s.Visit("/app")
 					s.Tick(time.Second)
 					s.Visit("/after")
+					// and the cookie held BEFORE the faulted request, whatever the browser was told to do with it since
+					s.request(reqSpec{Scheme: "https", Host: s.AppHost, Path: "/replayed", Cookie: s.cookie(before)}, nil, false)
 					c.Sum.Evaluations += len(s.Steps)
 					c.Hist("fault_enum_scenario", sc.Name)
 					key, _ := s.projKey()
 					c.Distinct("FE|" + key)
 					cases = append(cases, s.galHist())
-					d := s.descr(map[string]any{"fault_enum": fmt.Sprintf("%s / provider=%s / faults=%v jwks_fail=%v", sc.Name, beh.label(), pl.f, pl.jf)})
+					d := s.descr(map[string]any{"fault_enum": fmt.Sprintf("%s / provider=%s / faults=%v jwks_fail=%v redis_command_fault=%q", sc.Name, beh.label(), pl.f, pl.jf, pl.cmd)})
 					descr = append(descr, d)
 					w.Close()
 					if len(cases) == 60 {
